@@ -732,6 +732,16 @@ def fills(ctx):
         if kind == "font":
             r = sp.text_frame.paragraphs[0].add_run(); r.text = "t"; r.font.bold = True
             return r._r.rPr, lambda: again().text_frame.paragraphs[0].runs[0].font.fill
+        if kind == "series":
+            from pptx.chart.data import CategoryChartData
+            from pptx.enum.chart import XL_CHART_TYPE
+            cd = CategoryChartData(); cd.categories = ["a", "b"]; cd.add_series("s", [1, 2])
+            gf = slide.shapes.add_chart(XL_CHART_TYPE.COLUMN_CLUSTERED, 0, 0, 99, 99, cd)
+            cid = gf.shape_id
+            gf.chart.plots[0].series[0].format.fill.solid()
+            ser = gf.chart.plots[0].series[0]._element
+            return ser.find("{http://schemas.openxmlformats.org/drawingml/2006/chart}spPr"), \
+                lambda: [x for x in slide.shapes if x.shape_id == cid][0].chart.plots[0].series[0].format.fill
         gf = slide.shapes.add_table(1, 1, 0, 0, 99, 99)
         gid = gf.shape_id
         gf.table.cell(0, 0).margin_left = 5
@@ -748,7 +758,7 @@ def fills(ctx):
         return '<a:%s %s>%s</a:%s>' % (_CLR_TAGS[k], attrs, "".join(kids), _CLR_TAGS[k])
 
     def start_xml(kind):
-        opts = ["N", "0", "S", "S", "R", "R", "R", "P", "P"] + (["B", "G"] if kind == "shape" else [])
+        opts = ["N", "0", "S", "S", "R", "R", "R", "P", "P"] + (["B", "G"] if kind in ("shape", "series") else [])
         k = rng.choice(opts)
         if k == "N":
             return None
@@ -833,7 +843,7 @@ def fills(ctx):
     lines, impl, metas = [], [], []
     n = 80 if ctx.quick else 1200
     for hi in range(n):
-        kind = rng.choice(["shape", "shape", "line", "font", "cell"])
+        kind = rng.choice(["shape", "shape", "line", "font", "cell", "series"])
         parent, fresh = site(kind)
         fresh().solid()                       # the library puts the fill element where the schema has it ...
         sx = start_xml(kind)
@@ -902,6 +912,15 @@ def fills(ctx):
         ctx.traces += 1
         if i != m:
             ctx.disagree("fill", dict(meta, line=line), i, m)
+    # every part touched is still valid: each fill element sits where the schema has it, with the children it may have
+    from harness import xmllab
+    from harness.props.c03 import strip_known
+    for part in [slide.part] + [sh.chart.part for sh in slide.shapes if getattr(sh, "has_chart", False)]:
+        root = etree.fromstring(etree.tostring(part._element))   # a plain lxml tree
+        strip_known(root)    # the chart templates' negative axis ids are a listed finding of C03 / C07
+        ok, msg = xmllab.validate(root)
+        if ok is False:
+            ctx.fail("fill:invalid-xml", f"{part.partname} after the fill histories: {msg}", {})
 
 
 def oplab_ns():
